@@ -137,7 +137,14 @@ func (r *Receiver) SegmentHandlerFunc(w http.ResponseWriter, req *http.Request) 
 
 	defaultDur := mpd.Ptr(uint32(0))
 
-	chunkParserCallback := func(cd chunkparser.ChunkData) error {
+	chunkParserCallback := func(cd chunkparser.ChunkData) (err error) {
+		// The mp4 library panics on some malformed boxes (e.g. an mdat box declaring more bytes than were sent,
+		// or boxes in places where they cannot be re-encoded). This is turned into an error.
+		defer func() {
+			if r := recover(); r != nil {
+				err = fmt.Errorf("malformed mp4 data: %v", r)
+			}
+		}()
 		// Set ofh to the write file output and then write data
 		data := cd.Data // Used so that you can overwrite cd.Data when needed
 		if cd.IsInitSegment {
